@@ -396,7 +396,7 @@ PROPS["C08"] = dict(
     rule=("pipelines numbers(N) with N from {1e11, 5e9, 1e9, 100, 20, 3, 1, 0} -> map(e->cnt(e)) (cnt is a counting host function; in 1/8 of the "
           "cases it is slow for the first 14 elements, which forces the switch to parallel execution) -> 0..4 lazy stages from accept, skip, "
           "top, map, combine, number, iir, + -> a short-circuit consumer from first, top(n).size(), top(n).mapReduce, present, indexWhere, "
-          "top(1).single(), membership (x ~ list and the list form [a,b] ~ list), multiUse({first, top(n).size()}), with the decisive element at every position k in 0..64 and "
+          "top(1).single(), single() on lists with more than one item (an error that is decided by the second item), membership (x ~ list and the list form [a,b] ~ list), multiUse({first, top(n).size()}), with the decisive element at every position k in 0..64 and "
           "around 12 and the CPU count; in a third of the cases the counting closure throws at one source index: in half of them at D..D+5, directly behind the decisive prefix (an evaluation may read that element ahead but must not report its error), otherwise at the first index behind the read-ahead window; in 1/6 of the cases the pipeline is only built (bound by let, or returned lazily) and not consumed. Oracle: a pull-based "
           "Go model of every stage with the same value semantics computes D, the exact number of source elements a demand-driven "
           "evaluation needs, and D_hi, the demand when every point that may read one element ahead does so (each top, the multiUse "
